@@ -126,8 +126,8 @@ macro_rules! ans_io_harnesses {
                 }
                 if grp == 2 {
                     let (b1, s1) = c.clone().into_raw_parts();
-                    assert!(s1 == s0 && b1.n == b0.n, "C01/C08: dropping the get_binary view did not restore the coder");
-                    let mut i = 0; while i < b0.n { assert!(b1.buf[i] == b0.buf[i], "C01/C08: dropping the get_binary view changed the bulk"); i += 1; }
+                    assert!(s1 == s0 && b1.n == b0.n, "C01/C08/C06: dropping the get_binary view did not restore the coder");
+                    let mut i = 0; while i < b0.n { assert!(b1.buf[i] == b0.buf[i], "C01/C08/C06: dropping the get_binary view changed the bulk"); i += 1; }
                     return;
                 }
                 match c.into_binary() {
